@@ -128,11 +128,22 @@ def main(argv=None):
     ap.add_argument("--update-baseline", action="store_true")
     a = ap.parse_args(argv)
     if a.replay:
+        rec = json.load(open(a.replay))
+        if rec.get("custom") == "c17":
+            env = dict(os.environ)
+            env["PYTHONPATH"] = os.path.join(VERIF, ".build", "py312") + ":" + VERIF
+            code = ("import sys, json; from pyvc.bounded_c17 import run_real, post_ok; "
+                    "e=[tuple(x) for x in json.load(open(sys.argv[1]))['inputs']['edges']]; n,b=run_real([e]); print('REPLAY:', 'CONFIRMED' if b else 'not confirmed', b); sys.exit(0 if b else 1)")
+            p = subprocess.run([VENV_PY, "-W", "ignore", "-c", code, a.replay], cwd=VERIF, env=env, capture_output=True, text=True)
+            print(p.stdout[-500:])
+            return 0 if p.returncode == 0 else 1
         rc, out = run_replay(a.replay)
         print(out)
         return 0 if rc == 0 else 1
-    from .props import run_property
+    from .props import run_property, CUSTOM_RUNNERS
 
+    if a.prop in CUSTOM_RUNNERS:
+        return CUSTOM_RUNNERS[a.prop](a)
     return run_property(a)
 
 
